@@ -602,6 +602,13 @@ class World:
         for a in alts:
             if a.op == "call" and a.info.endswith("FromResidual::from_residual"):
                 continue
+            # opt.transpose()?  (Option<Result<T>> -> Result<Option<T>>): Some-payload of the Ok value = Ok-payload of the Some value
+            if a.op == "proj" and a.info == "ok" and which == "some" and depth < 8:
+                tc = self.ident(a.args[0], depth + 1, False) if a.args[0].op != "call" else a.args[0]
+                if tc.op == "call" and isinstance(tc.info, str) and tc.info.endswith("Option::transpose") and tc.args:
+                    for (p0, _) in self._ok_alts(tc.args[0], "some", depth + 1, expand_ws, True):
+                        keep.extend(self._ok_alts(p0, "ok", depth + 1, expand_ws, True))
+                    continue
             # Option / Result combinators that pass the payload through: x.ok(), x.filter(p), x.ok_or(e)
             if a.op == "call" and depth < 8 and a.args and self.callee_body(a) is None:
                 if a.info == "std::option::Option::filter" and which == "some":
@@ -612,6 +619,12 @@ class World:
                     continue
                 if a.info in ("std::option::Option::ok_or", "std::option::Option::ok_or_else") and which == "ok":
                     keep.extend(self._ok_alts(a.args[0], "some", depth + 1, expand_ws, True))
+                    continue
+                if a.info.endswith("bool::then") and which == "some" and len(a.args) == 2 and a.args[1].op == "closure":
+                    keep.append((self.apply_closure(a.args[1], []), True))   # cond.then(|| v): Some(v) when cond holds
+                    continue
+                if a.info.endswith("bool::then_some") and which == "some" and len(a.args) == 2:
+                    keep.append((a.args[1], True))
                     continue
                 # x.map(f) / x.and_then(f): the closure applied to the payload of x
                 if a.info in ("std::result::Result::map", "std::option::Option::map", "std::result::Result::and_then", "std::option::Option::and_then") \
